@@ -104,6 +104,13 @@ func (t *Thread) RunContinuation(c Cont) (err error) {
 			err = rtErr.AddContext(c, -1)
 			errContCount++
 			if t.messageHandler != nil {
+				if t.messageHandlerThread != nil && t.messageHandlerThread != t {
+					// The message handler was installed by another thread
+					// (e.g. this thread is a coroutine created in the
+					// function called by xpcall), it only applies if the
+					// error propagates to that thread.
+					return err
+				}
 				if errContCount > maxErrorsInMessageHandler {
 					return newHandledError(errErrorInMessageHandler)
 				}
@@ -351,6 +358,10 @@ func (t *Thread) sendResumeValues(args []Value, err error, exception interface{}
 // See quotas.md for details about this API.
 func (t *Thread) CallContext(def RuntimeContextDef, f func() error) (ctx RuntimeContext, err error) {
 	t.PushContext(def)
+	if def.MessageHandler != nil {
+		// The message handler handles errors in this thread only.
+		t.messageHandlerThread = t
+	}
 	c, h := t.CurrentCont(), t.closeStack.size()
 	defer func() {
 		ctx = t.PopContext()
